@@ -516,13 +516,13 @@ func (x Expr) FirstNode(n gen.Node) (result gen.Node) {
 						}
 						if 0 <= i && i < len(tv) {
 							v = tv[i]
-						}
-						if fi == index(len(x))-1 { // last one
-							return v
-						}
-						switch v.(type) {
-						case gen.Object, gen.Array:
-							stack = append(stack, v)
+							if fi == index(len(x))-1 { // last one
+								return v
+							}
+							switch v.(type) {
+							case gen.Object, gen.Array:
+								stack = append(stack, v)
+							}
 						}
 					}
 				}
